@@ -330,8 +330,12 @@ func c19Full(multiHomed bool) {
 	s.pollMutex.RUnlock()
 	// a goroutine that lost the race for an address may have dialled too, but it closed what it dialled:
 	// the connections still open are the pooled ones
+	// (the dial function is only replaced under the engine: a native run goes over a real socket and
+	// has no list of what was dialled)
 	sym.Quiesce()
-	sym.Assert(zzOpenConnections() == want, "full/connections-left-open-outside-the-pool")
+	if sym.Symbolic() {
+		sym.Assert(zzOpenConnections() == want, "full/connections-left-open-outside-the-pool")
+	}
 	// the advertised addresses are what they were (nobody scrambled the shared list)
 	after, err := s.findServiceName("multi")
 	sym.Assert(err == nil && len(after.Endpoints) == 3, "full/multi-service-endpoints")
